@@ -43,6 +43,40 @@ def ttlFromText (t : List Nat) : Except String Nat :=
   | .error e => .error e
   | .ok total => if total > Consts.maxTTL then .error "BadTTL" else .ok total
 
+/-! ## `dns.exception.ExceptionWrapper` (dns/exception.py): the net under every RDATA parser
+
+`dns.rdata.from_wire_parser` runs the type's parser inside `ExceptionWrapper(FormError)` and
+`dns.rdata.from_text` inside `ExceptionWrapper(SyntaxError)`: `__exit__` re-raises anything that is not an
+instance of the family as the family's base class (message kept, original chained). -/
+
+/-- what matters about an exception: which of the two families it is an instance of (a class can be in
+neither; none is in both) -/
+inductive ExcKind where
+  | form      -- dns.exception.FormError or a subclass (BadPointer, NameTooLong, ...)
+  | syntax    -- dns.exception.SyntaxError or a subclass (UnexpectedEnd, BadEscape, ...)
+  | other     -- any other DNSException, or a foreign exception (IndexError, struct.error, ...)
+  deriving DecidableEq, Repr
+
+inductive Family where
+  | form | syntax
+  deriving DecidableEq, Repr
+
+def isInstanceOf (e : ExcKind) (f : Family) : Bool :=
+  match e, f with
+  | .form, .form => true
+  | .syntax, .syntax => true
+  | _, _ => false
+
+def Family.base : Family → ExcKind
+  | .form => .form
+  | .syntax => .syntax
+
+/-- `ExceptionWrapper(family).__exit__`: `none` = the block completed -/
+def wrapExit (f : Family) (raised : Option ExcKind) : Option ExcKind :=
+  match raised with
+  | none => none
+  | some e => if isInstanceOf e f then some e else some f.base
+
 /-! ## message reader skeleton -/
 
 def nameErrClass (e : NameErr) : String := e.toString
